@@ -1,9 +1,9 @@
 """property id -> rules, explanation of what is / is not decided"""
-from rules import r_coord, r_keyid, r_opcode, r_doaction, r_cancel, r_idle, r_loop, r_traverse, r_repeat
+from rules import r_coord, r_keyid, r_opcode, r_doaction, r_cancel, r_idle, r_loop, r_traverse, r_repeat, r_chv2
 
 PROPS = {
     "C01": {
-        "rules": [r_coord.run, r_doaction.rule_state_push, r_cancel.run],
+        "rules": [r_coord.run, r_doaction.rule_state_push, r_cancel.run, r_chv2.rule_rel],
         "explanation": "Decides structural clauses of 'no stuck output': (R-COORD) every State variant created at a "
                        "coordinate is removable by Release at that coordinate and the three coordinate predicates agree; "
                        "(R-STATE-PUSH) arms of do_action that create coordinate-keyed state do so on every path and the custom "
@@ -50,8 +50,11 @@ PROPS = {
                        "table's semantic reasons are reviewed, not machine-checked",
     },
     "C09": {
-        "rules": [r_traverse.run_chords],
-        "explanation": "Narrow: decides that the two walkers that bind (chord ...) keys to their defchords group "
+        "rules": [r_traverse.run_chords, r_chv2.run_all],
+        "explanation": "Narrow: (R-CHV2-REL) v2: release bookkeeping dominates every wholesale removal from the v2 queue, active "
+                       "chords leave only via clear_released_chords which queues their virtual Release; (R-CHV2-DISABLED) every "
+                       "chord-selecting lookup in process_presses filters on disabled layers (sibling agreement); (R-CH1-GUARD) v1: "
+                       "every fold/retain over the queued events reads the event's age together with the event (chord window). Also decides that the two walkers that bind (chord ...) keys to their defchords group "
                        "(find_chords_coords, fill_chords) pass every nested action of every Action variant — derived from the "
                        "Action type — to their recursive call, so a chord key is found wherever the grammar allows an action.",
         "not_decided": "exact-set activation, press-order independence, decomposition order, v2 candidate search — run-time values",
